@@ -47,7 +47,11 @@ def make(K, table, axes=("X", "Y"), facedim="face", extra_fc=None, ds_variant=No
     coords = {"x": ("x", np.arange(N)), "xl": ("xl", np.arange(N) - 0.5), "y": ("y", np.arange(N)), "yl": ("yl", np.arange(N) - 0.5),
               "face": ("face", np.arange(K) if labels is None else np.array(labels))}
     ds = xr.Dataset(coords=coords)
-    if ds_variant == "scalar-coordinate":
+    if ds_variant == "no-face-coordinate":
+        # the face dimension exists (a data variable has it) but carries no coordinate: the faces are 0..K-1
+        ds["per_face"] = (("face",), np.zeros(K))
+        ds = ds.drop_vars("face")
+    elif ds_variant == "scalar-coordinate":
         ds = ds.isel(face=0)  # `face` survives as a scalar coordinate, not as a dimension
     elif ds_variant == "data-variable":
         ds = ds.isel(face=0, drop=True)
@@ -86,7 +90,7 @@ def check(rec, K, table, axes=("X", "Y"), sub="table", variant=None, labels=None
     if any(not present(f) and not any(l for pair in ax.values() for l in pair) for f, ax in table.items() if isinstance(f, int)):
         rec.counters["skipped:link-free row of an absent face (not classified)"] += 1
         return
-    want = predicate(K, table, axes, labels) and variant in (None, "flags-int", "flags-npbool", "links-as-lists")
+    want = predicate(K, table, axes, labels) and variant in (None, "flags-int", "flags-npbool", "links-as-lists", "no-face-coordinate")
     nlinks = sum(1 for f in table for A in table[f] for l in table[f][A] if l)
     rec.case((K, tab_json(table), axes, variant, None if labels is None else tuple(labels)), nlinks > 0, sample=case if nlinks >= 2 else None)
     rec.outcomes["expected-accept" if want else "expected-reject"] += 1
@@ -95,7 +99,7 @@ def check(rec, K, table, axes=("X", "Y"), sub="table", variant=None, labels=None
             make(K, table, axes, extra_fc={"face2": {0: {}}})
         elif variant == "absent-face-dim":
             make(K, table, axes, facedim="tile")
-        elif variant in ("scalar-coordinate", "data-variable"):
+        elif variant in ("scalar-coordinate", "data-variable", "no-face-coordinate"):
             make(K, table, axes, ds_variant=variant)
         elif variant in ("flags-int", "flags-npbool", "links-as-lists"):
             make(K, respell(table, {"flags-int": 1, "flags-npbool": 2, "links-as-lists": 3}[variant]), axes)
@@ -106,7 +110,7 @@ def check(rec, K, table, axes=("X", "Y"), sub="table", variant=None, labels=None
         ok = False
         err = e
     if ok and not want:
-        cls = "non-reciprocal-accepted" if variant in (None, "flags-int", "flags-npbool", "links-as-lists") else f"{variant}-accepted"
+        cls = "non-reciprocal-accepted" if variant in (None, "flags-int", "flags-npbool", "links-as-lists", "no-face-coordinate") else f"{variant}-accepted"
         rec.violation(sub, cls, case, "raise", "Grid returned")
     elif not ok and want:
         rec.violation(sub, "reciprocal-rejected:" + exc_sig(err), case, "Grid", f"{type(err).__name__}: {err}"[:200])
@@ -243,6 +247,15 @@ def run_shard(shard, tier, seed, rec):
                             bp[back_side] = (K, A, rev)
                             t2[g][B] = tuple(bp)
                             check(rec, K, t2, sub="surplus-row")
+        # a face dimension without coordinate: tables with fewer rows than faces (unconnected faces left out) and with more
+        ring3 = T.table_of([((0, "X", 1), (1, "X", 0)), ((1, "X", 1), (2, "X", 0))], 3)
+        skip1 = {0: {"X": (None, (2, "X", False))}, 2: {"X": ((0, "X", False), None)}}
+        for K_, t_ in ((2, ring3), (3, ring3), (4, ring3), (3, skip1), (2, skip1), (4, skip1)):
+            check(rec, K_, t_, sub="no-face-coordinate", variant="no-face-coordinate")
+        for i, t in enumerate(all_625()):
+            if i % 5 == 0:
+                check(rec, 2, t, axes=("X",), sub="no-face-coordinate", variant="no-face-coordinate")
+                check(rec, 3, t, axes=("X",), sub="no-face-coordinate", variant="no-face-coordinate")
         # datasets whose face labels are not 0..K-1: a face exists when it is one of the labels
         for labels in ([1, 2], [10, 20], [1, 0], [0, 2], [2, 1]):
             m = {0: labels[0], 1: labels[1]}
